@@ -53,8 +53,8 @@ class Rec:
     def init(self, salt=0):
         e = dict(op='init', salt=salt_words(self.name, salt), raised='')
         try:
-            if self.isblake: self.o.initstate(salt)
-            else: self.o.initstate()
+            if self.isblake and salt: self.o.initstate(salt)
+            else: self.o.initstate()                    # no salt: the plain call (a BLAKE object must then forget an earlier salt)
         except Exception as ex: e['raised'] = type(ex).__name__
         self.ev.append(e); return e
     def call(self, m, bitlen=None, salt=0):
